@@ -126,7 +126,8 @@ func (st *c14State) drawNode(i int, lowVersion bool) *specs.DeviceNode {
 			dn.GID = &g
 		}
 		if src.Bool(1, 2) {
-			fm := os.FileMode([]uint32{0o600, 0o660, 0o666}[src.Intn(3)])
+			// permission bits only, or a mode as os.Stat reports it (type bits, setuid, sticky)
+			fm := []os.FileMode{0o600, 0o660, 0o666, os.ModeDevice | os.ModeCharDevice | 0o666, os.ModeSetuid | 0o755, os.ModeSticky | 0o777}[src.Intn(6)]
 			dn.FileMode = &fm
 		}
 	}
@@ -331,7 +332,7 @@ func c14(r *core.Run) {
 			s.ContainerEdits.Env = append(s.ContainerEdits.Env, fmt.Sprintf("SPEC%d_%d=f%d", i, k, i))
 		}
 		for k, n := 0, src.Intn(4); k < n; k++ {
-			s.ContainerEdits.Mounts = append(s.ContainerEdits.Mounts, richMount(src, &specs.Mount{HostPath: messy(src, fmt.Sprintf("/host/s%d_%d", i, k)), ContainerPath: messy(src, fmt.Sprintf("/ctr/s%d_%d", i, k))}, version != "0.3.0"))
+			s.ContainerEdits.Mounts = append(s.ContainerEdits.Mounts, richMount(src, &specs.Mount{HostPath: messy(src, fmt.Sprintf("/host/s%d_%d", i, k)), ContainerPath: messy(src, fmt.Sprintf("/ctr/s%d_%d%s", i, k, []string{"", "/a", "/a/b", "/a/b/c"}[src.Intn(4)]))}, version != "0.3.0"))
 		}
 		for k, n := 0, src.Intn(4); k < n; k++ {
 			s.ContainerEdits.Hooks = append(s.ContainerEdits.Hooks, richHook(src, &specs.Hook{HookName: "prestart", Path: messy(src, fmt.Sprintf("/bin/hook-s%d-%d", i, k))}, fmt.Sprintf("s%d-%d", i, k)))
@@ -356,8 +357,10 @@ func c14(r *core.Run) {
 			if src.Bool(1, 3) {
 				d.ContainerEdits.Hooks = append(d.ContainerEdits.Hooks, richHook(src, &specs.Hook{HookName: "poststop", Path: messy(src, fmt.Sprintf("/bin/hook-d%d-%d", i, j))}, fmt.Sprintf("d%d-%d", i, j)))
 			}
-			if src.Bool(1, 3) {
-				d.ContainerEdits.Mounts = append(d.ContainerEdits.Mounts, richMount(src, &specs.Mount{HostPath: messy(src, fmt.Sprintf("/host/d%d_%d", i, j)), ContainerPath: messy(src, fmt.Sprintf("/ctr/d%d_%d", i, j))}, version != "0.3.0"))
+			for k, n := 0, []int{0, 0, 1, 1, 2, 3}[src.Intn(6)]; k < n; k++ {
+				// destinations of different depths, deeper ones sometimes listed first
+				deep := []string{"", "/a", "/a/b", "/a/b/c"}[src.Intn(4)]
+				d.ContainerEdits.Mounts = append(d.ContainerEdits.Mounts, richMount(src, &specs.Mount{HostPath: messy(src, fmt.Sprintf("/host/d%d_%d_%d", i, j, k)), ContainerPath: messy(src, fmt.Sprintf("/ctr/d%d_%d_%d%s", i, j, k, deep))}, version != "0.3.0"))
 			}
 			if rich {
 				richEdits(src, &d.ContainerEdits, fmt.Sprintf("d%d-%d", i, j))
